@@ -59,8 +59,8 @@ func NewExprGen(r *Rng, d *Doc, env *Env) *ExprGen {
 	return g
 }
 
-func num(t string) *ENum  { return &ENum{t} }
-func lit(v string) *ELit  { return &ELit{v} }
+func num(t string) *ENum { return &ENum{t} }
+func lit(v string) *ELit { return &ELit{v} }
 func call(name string, args ...Expr) *ECall {
 	return &ECall{RawQ{Local: name}, args}
 }
